@@ -366,3 +366,39 @@ def r4(R):
         R.violation((m.relpath, s2n.qualname, 'str2num'),
                     'str2num no longer pads the 6 stored bytes with two zero '
                     'high bytes')
+
+
+@rule('C19.R5', 'loading an index ends only at the terminating None; a '
+      'stream that is cut short raises (and the caller rejects the index)',
+      props=['C09'], min_instances=1)
+def r5(R):
+    cls = R.prog.cls(FSINDEX)
+    f = R.method(cls, 'load')
+    g, b, F = R.cfg(f, cls, max_depth=0)
+    loads = [n for n in (g.nodes[i] for i in g.reachable())
+             if any(op.kind == 'call' and op.path and op.path[-1] == 'load'
+                    and op.path[0] == '%local' for op in F.ops(n))]
+    R.instance('fsIndex.load', load_sites=len(loads))
+    R.require(loads, 'fsIndex.load no longer unpickles')
+    for n in loads:
+        # from the exception edge of this load, a normal return of the
+        # function must be unreachable
+        seen, stack = set(), [t for t, lab in n.succ if lab in ('e', 'eb')]
+        hit = False
+        while stack:
+            i = stack.pop()
+            if i == g.exit_return:
+                hit = True
+                break
+            if i in seen:
+                continue
+            seen.add(i)
+            nd = g.nodes[i]
+            for t, lab in nd.succ:
+                stack.append(t)
+        if hit:
+            R.violation(n, 'a failure while reading the index stream (for '
+                        'instance EOFError on a file that was cut short) is '
+                        'turned into a normal end of the index: a truncated '
+                        'index is accepted as a smaller, complete one and '
+                        'objects disappear')
